@@ -4,23 +4,30 @@
   Saltpack/Proofs/StreamLemmas.lean.
 
   What is proved here: the write side completely (the plaintext bufferer shared
-  by the three encoder streams, the BaseX encoder stream); on the read side the
-  two outer layers as whole-stream theorems — the chunk reader (the `Read` side
-  of all three receivers: any buffer sizes ⇒ the concatenation of the chunks,
-  then the condition, sticky) and the punctuated reader (any fragmentation of
-  the underlying reader and any buffer sizes ⇒ the text up to the next period,
-  then `ErrPunctuated`, then on from behind the period) — and the source model.
-  The two inner layers of the armor reader stack (filteringReader → BaseX
-  decoder, and the frame checks of framedDecoderStream around them) are modelled
-  call by call in Model/Stream.lean and compared with the implementation per
-  `Read` under eight fragmentations × ten buffer-size schedules on genuine,
-  re-flowed and malformed texts on every run; their whole-text meaning is
-  `Armor.openPure` (C11).  A machine-checked layer theorem for those two layers
-  is not in place — MANIFEST labels that part `correspondence only`.
+  by the three encoder streams, the BaseX encoder stream); the read side as
+  whole-stream theorems — the chunk reader (the `Read` side of all three
+  receivers), the punctuated reader, and the COMPLETE armor reader stack
+  (punctuatedReader → framedDecoderStream → filteringReader → BaseX decoder):
+  `C13_armor_stream_is_whole_text`: for every script that delivers a text `T` in
+  any fragments (also the last one together with EOF) and every schedule of
+  positive caller buffer sizes, reading the stack to its end and asking for
+  header/footer/brand (Go's `armorOpen`) succeeds exactly when the whole-text
+  function `Armor.openPure T` (C11) does, with the same payload, brand, header
+  and footer; `C13_armor_stream_independent`: hence two fragmentations and two
+  buffer schedules agree.  Excluded scripts (`SrcOK`), each with a
+  machine-checked counterexample in Proofs/Stack*.lean: empty non-terminal
+  reads `(0, nil)` (Go's `ReadUntilPunctuation` turns one into
+  `ErrUnexpectedEOF`; the property's quantifier excludes readers that return
+  them forever, io.Reader discourages them), and data after the first reported
+  condition.  WHICH error is reported for a malformed text can depend on the
+  fragmentation (counterexample: `"h..f.!."` gives `punctuated` in one delivery
+  and `trailingGarbage` byte by byte) — the property asks for the same *result*,
+  and an error either way, which is what is proved.
 -/
 import Saltpack.Proofs.StreamLemmas
 import Saltpack.Proofs.ChunkReaderAll
 import Saltpack.Proofs.PunctAll
+import Saltpack.Proofs.ArmorStack
 
 namespace Saltpack.Props.C13
 open Saltpack Saltpack.Stream Saltpack.Proofs
@@ -153,6 +160,52 @@ theorem C13_punct_independent (src src' : Source) (h : srcText src = srcText src
   let r := pReadSeg_independent src src' h caps caps' hpos hpos' fuel fuel' hfuel hfuel'
   ⟨r.1, r.2.1⟩
 
+/-- **The armor reader stack computes the whole-text function**, whatever the
+    fragmentation of the input and the caller's buffer sizes: `armorOpenStream`
+    (read the decoder stack to its end with buffer schedule `caps`, then
+    `GetHeader`/`GetFooter`/`GetBrand`) returns `o` exactly when
+    `Armor.openPure` returns `o` on the text the script delivers. -/
+theorem C13_armor_stream_is_whole_text (par : Armor.Params) (hpar : par.enc.WF) (expect : Armor.Expect)
+    (src : Source) (T : Bytes) (hok : SrcOK src) (hsrc : srcText src = (T, .eof))
+    (caps : List Nat) (hcaps : ∀ c ∈ caps, 0 < c) (fuel : Nat) (hfuel : T.length + 1 ≤ fuel) (o : Armor.Opened) :
+    armorOpenStream par expect caps fuel src = .ok o ↔ Armor.openPure par expect T = .ok o :=
+  armorOpenStream_ok_iff par hpar expect src T hok hsrc caps hcaps fuel hfuel o
+
+/-- …for the shipped base62 armor -/
+theorem C13_armor62_stream_is_whole_text (expect : Armor.Expect) (src : Source) (T : Bytes) (hok : SrcOK src)
+    (hsrc : srcText src = (T, .eof)) (caps : List Nat) (hcaps : ∀ c ∈ caps, 0 < c) (fuel : Nat)
+    (hfuel : T.length + 1 ≤ fuel) (o : Armor.Opened) :
+    armorOpenStream Armor.params62 expect caps fuel src = .ok o ↔ Armor.open62 expect T = .ok o :=
+  readAll_eq_open62 expect src T hok hsrc caps hcaps fuel hfuel o
+
+/-- the bytes released by the `Read` calls themselves: exactly the payload and a
+    clean end when the text is well-formed; an error is reported when the entry
+    point checks frames (`expect = some typ`) and the text is not -/
+theorem C13_armor_reads (par : Armor.Params) (hpar : par.enc.WF) (expect : Armor.Expect)
+    (src : Source) (T : Bytes) (hok : SrcOK src) (hsrc : srcText src = (T, .eof))
+    (caps : List Nat) (hcaps : ∀ c ∈ caps, 0 < c) (fuel : Nat) (hfuel : T.length + 1 ≤ fuel) :
+    (∀ o, Armor.openPure par expect T = .ok o →
+      (readAll par expect caps fuel 0 (newDecoder src) []).1 = o.payload ∧
+      (readAll par expect caps fuel 0 (newDecoder src) []).2.1 = none) ∧
+    (∀ typ e, expect = some typ → Armor.openPure par expect T = .error e →
+      ∃ released e' d, readAll par expect caps fuel 0 (newDecoder src) [] = (released, some e', d)) := by
+  refine ⟨fun o ho => ?_, fun typ e ht he => ?_⟩
+  · have := readAll_independent par hpar expect src src T hok hok hsrc hsrc caps caps hcaps hcaps fuel fuel hfuel hfuel o ho
+    exact ⟨this.1, this.2.2.1⟩
+  · subst ht
+    exact readAll_error_checked par hpar typ src T hok hsrc caps hcaps fuel hfuel e he
+
+/-- **Fragmentation independence of dearmoring**: two scripts of the same text
+    and two buffer schedules give the same result (`.toOption`: the same opened
+    message, or an error in both) -/
+theorem C13_armor_stream_independent (par : Armor.Params) (hpar : par.enc.WF) (expect : Armor.Expect)
+    (src src' : Source) (T : Bytes) (hok : SrcOK src) (hok' : SrcOK src')
+    (hsrc : srcText src = (T, .eof)) (hsrc' : srcText src' = (T, .eof))
+    (caps caps' : List Nat) (hcaps : ∀ c ∈ caps, 0 < c) (hcaps' : ∀ c ∈ caps', 0 < c)
+    (fuel fuel' : Nat) (hfuel : T.length + 1 ≤ fuel) (hfuel' : T.length + 1 ≤ fuel') :
+    (armorOpenStream par expect caps fuel src).toOption = (armorOpenStream par expect caps' fuel' src').toOption :=
+  armorOpenStream_independent par hpar expect src src' T hok hok' hsrc hsrc' caps caps' hcaps hcaps' fuel fuel' hfuel hfuel'
+
 /-- **Source model**: a `Read` takes a prefix of the data, at most the buffer
     size, and leaves the rest — fragmentations of the same bytes differ only in
     where the cuts fall -/
@@ -167,6 +220,12 @@ theorem C13_source_prefix (cap : Nat) (src : Source) :
 theorem C13_reader_bounds : Armor.frameLim = 8192 ∧ dBufSize Gen.base62Std = 8192 * 32 := by decide
 
 /-! ## non-vacuity -/
+-- "h.00.f." delivered in two fragments, the second one together with EOF, read
+-- with buffers of 3 and 1 bytes: the hypotheses are met and both sides are `ok`
+example : armorOpenStream Armor.params62 none [3, 1] 8 [([104, 46, 48], none), ([48, 46, 102, 46], some .eof)]
+    = .ok ⟨[0], [], [104], [102]⟩ :=
+  (C13_armor62_stream_is_whole_text none _ Proofs.exTiny (by simp [SrcOK]) (by decide) [3, 1] (by decide) 8
+    (by decide) _).mpr (by decide)
 example :
     let r := crReadAll Proofs.scriptNext [2] 5 7 0 { chunker := [([1, 2, 3], none), ([4], none), ([5, 6], none)] } []
     (r.1, r.2.1) = ([1, 2, 3, 4, 5, 6], some .eof) := by decide
